@@ -220,5 +220,5 @@ def jobs(tier):
     J.append(Job('Abel1D.shipped:dim=5', lambda c: shipped(c, 'Abel1D'), 'Pbox', ['cuqi.testproblem._testproblem:Abel1D.__init__'], pre=_mk('Abel1D', dim=5)))
     # function-backed models between 2-D fields whose callables hand back arrays in other memory layouts (shared with C12): adjoint = closed-form transpose
     from contracts import C12 as _c12
-    J += [j for j in _c12.jobs(tier) if j.id.startswith('field_models_2d:')]
+    J += [j for j in _c12.jobs(tier) if j.id.startswith('field_models_2d:') or j.id.startswith('same_class_geometries:Image2D')]
     return J
